@@ -107,12 +107,25 @@ def main():
                         R.violation("property", "checking is on and a well-typed call failed: %s %s" % (st["wrapped"], desc), {"kind": kname, "schedule": sched, "step": st}, key={"kind": "good-fails", "callable": kname})
             if len(samples) < 4 and idx % 7 == 1:
                 samples.append({"kind": kname, "ops": sched["ops"], "steps": [None if s is None else [s["flag"], s["wrapped"], s["plain"]] for s in r["steps"]]})
+    for h in out.get("hooked", []):
+        for st in h["steps"]:
+            n += 1
+            R.count("hooked:%s:%s" % ("off" if st["flag"] else "on", st["args"]))
+            desc = "module imported through install_import_hook(.., %r) while jaxtyping_disable=%s; now flag=%s, %s-typed call" % (h["checker"], h["disabled_at_import"], st["flag"], st["args"])
+            if st["flag"] and not st["same"]:
+                R.violation("property", "with checking switched off a hooked module does not behave like the plain module: hooked %s, plain %s (%s)" % (st["wrapped"], st["plain"], desc),
+                            {"hooked": h, "step": st}, key={"kind": "hooked-disabled-differs"})
+            if not st["flag"] and st["args"] == "bad" and st["wrapped"][0] != "exc":
+                R.violation("property", "checking is on but the hooked module accepts an ill-typed call (switching back on must restore checking, whenever the module was imported): %s" % desc,
+                            {"hooked": h, "step": st}, key={"kind": "hooked-not-restored", "disabled_at_import": h["disabled_at_import"]})
+            if not st["flag"] and st["args"] == "good" and st["wrapped"][0] != "ret":
+                R.violation("property", "checking is on and a well-typed call of the hooked module failed: %s (%s)" % (st["wrapped"], desc), {"hooked": h, "step": st}, key={"kind": "hooked-good-fails"})
     if not proved:
         R.violation("proof", "proof obligations of props/C19.v no longer check (generated switch table / early-return test): " + str(R.broken_proof)[-900:],
                     {"theorem_file": "coq/props/C19.v", "log": R.broken_proof}, no_input=not any(v["kind"] == "property" for v in R.violations))
     R.coverage.update(evaluations=n, distinct_nontrivial=len(nontriv), samples=samples, exhaustive=True,
                       exhaustive_part="switch table: all 48 case variants of true/false, 0/1, %d other strings, 9 non-string values x 3 item spellings; 9 environment values in fresh interpreters" % (len(values) - 50),
-                      rule="exhaustive switch table + %d toggle schedules x 10 callable kinds (new-style function, no_type_check above / below, method, dataclass; typeguard and beartype), each call compared with the undecorated callable inside an enclosing context binding a=9 "
+                      rule="exhaustive switch table + %d toggle schedules x 10 callable kinds (new-style function, no_type_check above / below, method, dataclass; typeguard and beartype), each call compared with the undecorated callable inside an enclosing context binding a=9; calls also from threads started after the toggle; modules loaded through the import hook while the switch is on / off, then toggled; "
                            "(so that a transparent call is distinguishable from one that pushes its own context). non-trivial = distinct (callable kind, schedule, call) executed with checking off" % len(scheds))
     R.assumptions += ["Python ints 0/1 passed to config.update are not judged (the statement lists spellings and booleans)", "ASCII spellings"]
     sys.exit(R.finish())
